@@ -46,6 +46,11 @@ CHECKS = {
         text="Exploration: histories of 2-40 (thorough 2-400) runs over pools of generated programs, programs failing midway inside nested loops, allocating programs under small budgets (cumulative allocation crosses the budget up to 30x) and programs whose environment functions depend on the bound environment value; after every run the reused VM's value (Exact), failure message, environment-call log, stack and scope are compared with a fresh VM, and recently returned values are re-inspected for modification by later runs.",
         note="Trusted: vm.Run on a fresh VM as the model; Exact/Show. vm.MemoryBudget is process-global: the check is single-goroutine and restores it.",
         ref="4/C07"),
+    "C08": dict(
+        technique="property-based testing (rapid) of generated concurrent batches under the Go race detector (schedule sampling: goroutine counts, run counts, GOMAXPROCS, yield points are generated); differential against sequential results of separately compiled copies; snapshot invariants on shared state",
+        text="Exploration: each batch shares 3-8 compiled programs (constants of every kind; failing programs too, so error construction runs concurrently) and read-only struct/pointer/map environments between 2-12 (thorough 2-32) goroutines released by a barrier, with concurrent Compile+Run calls sharing one sample environment and options slice; the race detector's report stream is inspected after every batch, every concurrent result must equal the sequential result of a separately compiled copy, and the shared programs and environments must be unchanged.",
+        note="Trusted: the race detector (happens-before: an unsynchronised pair is reported whenever both accesses execute, whatever the interleaving); 'returns what it returns alone' is decided only for the schedules the Go runtime happened to produce - the harness does not own the scheduler (DESIGN.md section 7).",
+        ref="4/C08"),
     "C09": dict(
         technique="property-based testing (rapid) with invariants over a small history per case (compile x3 with foreign compilations in between, snapshot, run, snapshot, run again) + a differential across fresh child processes that compile one list of (source, environment kind) pairs in different orders and under different GOMAXPROCS",
         text="Exploration: for generated programs and option sets the three compilations must be identical in bytecode, constants (regexps by pattern, lookup maps by content), locations and source; deep Show-snapshots of the sample environment, the run environment and the Program must be unchanged by Compile and Run; a second run on an equal environment must be Exact and must not alter the first result. Across 4 (thorough 16) fresh processes 96 (source, environment kind) pairs over an environment type with value- and pointer-receiver methods and embedded structs must compile to the same digest or the same rejection whatever was compiled before.",
